@@ -1,4 +1,4 @@
-"""C01 — decoding conforms to the Encoding Standard (class-level clauses D1–D4, D6)."""
+"""C01 — decoding conforms to the Encoding Standard (class-level clauses D1–D6)."""
 from mirlib import *
 from ranges import *
 from shape import *
@@ -15,7 +15,9 @@ MANIFEST = {
             'the Standard\'s restore rule: (1,1)+unread for bytes outside 81-FE, (1,2)+unread for bytes outside 30-39, (4,0) only for 30-39); '
             '(D3) the exact set of invalid lead bytes of Big5, EUC-KR, Shift_JIS, EUC-JP and gb18030 equals the Standard\'s; (D4) the UTF-8 '
             'streaming decoder\'s lead classes (needed 1/2/3 for C2-DF/E0-EF/F0-F4, lower A0 after E0, upper 9F after ED, lower 90 after F0, upper '
-            '8F after F4, error for 80-C1 and F5-FF) equal the Standard\'s table; (D6) surrogate classification in the UTF-16 decoder uses exactly '
+            '8F after F4, error for 80-C1 and F5-FF) equal the Standard\'s table; (D5) the ISO-2022-JP decoder\'s per-state byte classes (escape '
+            'introducers, error sets {0E,0F,>7F}, Roman 5C/7E folding, katakana 21-5F, lead/trail 21-7E, Malformed(1,1)/(3,3) in the escape '
+            'states) equal the Standard\'s; (D6) surrogate classification in the UTF-16 decoder uses exactly '
             'the D800-DBFF / DC00-DFFF partitions. Values produced by index look-ups and pointer arithmetic, trail-byte acceptance (table '
             'contents) and whole-stream equality with the Standard are numerical and not decided.',
     'note': 'Trusted: rustc MIR, mirx, rule library, the Standard\'s decoder byte ranges transcribed in rules/p_c01.py; the ASCII fast path '
@@ -279,10 +281,59 @@ def d6(rep, f, c):
     rep.floor('C01-D6', 'surrogate tests', n, 4, c)
 
 
+ISO_EXPECT = {
+    # Encoding Standard §12.2.1 ISO-2022-JP decoder, per state
+    'Ascii': {('to', 'EscapeStart'): I(0x1B), ('malformed', (1, 0), 'consumed'): I(0x0E, 0x0F, (0x80, 0xFF)),
+              ('write_ascii', 'b'): I((0, 0x7F)) - I(0x0E, 0x0F, 0x1B)},
+    'Roman': {('to', 'EscapeStart'): I(0x1B), ('malformed', (1, 0), 'consumed'): I(0x0E, 0x0F, (0x80, 0xFF)),
+              ('write_mid_bmp', 0xA5): I(0x5C), ('write_upper_bmp', 0x203E): I(0x7E),
+              ('write_ascii', 'b'): I((0, 0x7F)) - I(0x0E, 0x0F, 0x1B, 0x5C, 0x7E)},
+    'Katakana': {('to', 'EscapeStart'): I(0x1B), ('write_upper_bmp', 'expr'): I((0x21, 0x5F)),
+                 ('malformed', (1, 0), 'consumed'): BYTE - I((0x21, 0x5F), 0x1B)},
+    'LeadByte': {('to', 'EscapeStart'): I(0x1B), ('to', 'TrailByte'): I((0x21, 0x7E)), ('store', 'lead', 'b'): I((0x21, 0x7E)),
+                 ('malformed', (1, 0), 'consumed'): BYTE - I((0x21, 0x7E), 0x1B)},
+    'TrailByte': {('to', 'EscapeStart'): I(0x1B), ('malformed', (1, 1), 'consumed'): I(0x1B), ('malformed', (2, 0), 'consumed'): BYTE - I(0x1B)},
+    'EscapeStart': {('to', 'Escape'): I(0x24, 0x28), ('store', 'lead', 'b'): I(0x24, 0x28), ('malformed', (1, 0), 'unread'): BYTE - I(0x24, 0x28)},
+}
+
+
+def d5(rep, f, c):
+    for sink in ('decode_to_utf8_raw', 'decode_to_utf16_raw'):
+        fn = 'iso_2022_jp::Iso2022JpDecoder::' + sink
+        b = f.body(fn)
+        if b is None:
+            rep.undecidable('C01-D5', fn, 'not found', None, c)
+            continue
+        site = sp_str(b.raw['span'])
+        res = r_decclass.state_classes(f, b, 'decoder_state')
+        if res is None or res[1]:
+            rep.undecidable('C01-D5', fn, 'per-state classification not decidable', site, c)
+            continue
+        cl = res[0]
+        for st, exp in sorted(ISO_EXPECT.items()):
+            arm = cl.get(st, {})
+            for k, want in sorted(exp.items(), key=str):
+                got = arm.get(k, ISet())
+                rep.ob('C01-D5', '%s:%s:%s' % (fn, st, k), got == want, 'ISO-2022-JP decoder, state %s, %s: implementation %r, Standard %r' % (st, k, got, want), site, {'bytes': repr(got)}, c)
+            if st in ('Ascii', 'Roman', 'Katakana', 'LeadByte', 'EscapeStart'):
+                extra = {k: v for k, v in arm.items() if k not in exp and k[0] in ('malformed', 'to') or (k not in exp and str(k[0]).startswith('write'))}
+                rep.ob('C01-D5.extra', '%s:%s' % (fn, st), not extra, 'outcomes not in the Standard for state %s: %r' % (st, {str(k): repr(v) for k, v in extra.items()}), site, None, c)
+        tb = cl.get('TrailByte', {})
+        wr = ISet()
+        for k, v in tb.items():
+            if str(k[0]).startswith('write'):
+                wr = wr | v
+        rep.ob('C01-D5', '%s:TrailByte:writes' % fn, wr == I((0x21, 0x7E)), 'trail bytes that can produce output: %r, Standard 21-7E' % wr, site, None, c)
+        esc = cl.get('Escape', {})
+        rep.ob('C01-D5', '%s:Escape' % fn, set(k for k in esc if k[0] == 'malformed') == {('malformed', (1, 1), 'unread'), ('malformed', (3, 3), 'consumed')},
+               'escape-state errors are not Malformed(1,1)+unread / Malformed(3,3): %r' % [k for k in esc if k[0] == 'malformed'], site, None, c)
+
+
 def run(rep, facts, tier):
     for c, f in facts.items():
         d1(rep, f, c)
         d2_d3(rep, f, c)
         d4(rep, f, c)
+        d5(rep, f, c)
         d6(rep, f, c)
     return ('other', MANIFEST['text'], [])
